@@ -4,8 +4,12 @@ import (
 	"encoding/json"
 	"fmt"
 	"net/http/httptest"
+	"os"
+	"path/filepath"
 	"sort"
 	"strings"
+	"sync"
+	"sync/atomic"
 	"time"
 
 	"github.com/php-any/origami/data"
@@ -22,8 +26,8 @@ import (
 func init() { Registry["C12"] = C12 }
 
 type c12Act struct {
-	Op, VM, Kind, Name string
-	Ok                 bool
+	Op, VM, Kind, Name, Via string
+	Ok                      bool
 }
 
 type c12Table map[string]map[string][]string // vm -> kind -> names
@@ -116,6 +120,22 @@ func (w *c12World) enableHot() {
 	}
 }
 
+var c12IncSeq atomic.Int64
+var c12IncDir string
+var c12IncOnce sync.Once
+
+// c12IncludeDir is a scratch directory for included definition files (removed by C12 when it returns).
+func c12IncludeDir() string {
+	c12IncOnce.Do(func() {
+		d, err := os.MkdirTemp("", "verif-c12-")
+		if err != nil {
+			panic(err)
+		}
+		c12IncDir = d
+	})
+	return c12IncDir
+}
+
 func newC12World(names []string) *c12World {
 	vm, p := rt.NewVM()
 	vm.SetThrowControl(func(acl data.Control) { panic(fmt.Sprintf("uncaught: %s", acl.AsString())) })
@@ -201,7 +221,18 @@ func (w *c12World) apply(a c12Act) (ok bool, detail string) {
 		return e == "" && strings.HasSuffix(out, "found"), out + " " + e
 	case "define":
 		tag := fmt.Sprintf("%s@%s#%d", a.Name, a.VM, w.seq)
-		_, e := w.run(a.VM, c12Source(a.Kind, a.Name, tag), fmt.Sprintf("/verif-virtual/c12/def%d.zy", w.seq))
+		src := c12Source(a.Kind, a.Name, tag)
+		switch a.Via {
+		case "include": // the definition sits in a file of its own that the request includes
+			f := filepath.Join(c12IncludeDir(), fmt.Sprintf("def-%d-%d.php", os.Getpid(), c12IncSeq.Add(1)))
+			if err := os.WriteFile(f, []byte("<?php\n"+src), 0o644); err != nil {
+				panic(err)
+			}
+			src = fmt.Sprintf("include \"%s\";\n", f)
+		case "eval":
+			src = fmt.Sprintf("eval(\"%s\");\n", strings.ReplaceAll(strings.TrimSpace(src), "\"", "\\\""))
+		}
+		_, e := w.run(a.VM, src, fmt.Sprintf("/verif-virtual/c12/def%d.zy", w.seq))
 		return e == "", e
 	}
 	panic("op " + a.Op)
@@ -333,11 +364,26 @@ func C12(c *Ctx) *kf.Report {
 		"resolvability only is compared on deliberate collisions (which definition wins is not prescribed)",
 		"TLC 1.8 + Json module print the spec's graph / walks faithfully",
 	}
+	defer func() {
+		if c12IncDir != "" {
+			os.RemoveAll(c12IncDir)
+		}
+	}()
+	// does eval() run at all on a temporary VM? (either answer is compatible with isolation; the model is told)
+	evalTemp := "supported"
+	{
+		w := newC12World([]string{"Z"})
+		w.apply(c12Act{Op: "new", VM: "t1"})
+		if ok, _ := w.apply(c12Act{Op: "define", VM: "t1", Kind: "func", Name: "zz_probe", Via: "eval"}); !ok {
+			evalTemp = "refused"
+		}
+	}
+	rep.Coverage["eval_on_temp_vm"] = evalTemp
 	names := []string{"A", "B"}
 	maxDefs := c.Pick(3, 4)
 	depth := c.Pick(4, 5)
 	res := runTLC(rep, tlc.Run{SpecDir: c.SpecDir(), Module: "TempVM", Cfg: "TempVM.cfg",
-		Consts: map[string]string{"NAMES": `{"A","B"}`, "TEMPS": `{"t1","t2"}`, "MAXDEFS": fmt.Sprint(maxDefs), "HIST": "FALSE", "WALKLEN": "0", "PROBES": `{"class"}`}})
+		Consts: map[string]string{"NAMES": `{"A","B"}`, "TEMPS": `{"t1","t2"}`, "MAXDEFS": fmt.Sprint(maxDefs), "HIST": "FALSE", "WALKLEN": "0", "PROBES": `{"class"}`, "VIAS": `{"inline"}`, "EVALTEMP": evalTemp}})
 	if res == nil {
 		return rep
 	}
@@ -444,11 +490,39 @@ func C12(c *Ctx) *kf.Report {
 		}
 		return len(rep.Mismatches) < 200
 	})
+	// the same graph for definitions that arrive through an included file or through eval() (one name, two definitions)
+	if res2 := runTLC(rep, tlc.Run{SpecDir: c.SpecDir(), Module: "TempVM", Cfg: "TempVM.cfg",
+		Consts: map[string]string{"NAMES": `{"A"}`, "TEMPS": `{"t1","t2"}`, "MAXDEFS": "2", "HIST": "FALSE", "WALKLEN": "0", "PROBES": "{}", "VIAS": `{"include", "eval"}`, "EVALTEMP": evalTemp}}); res2 != nil {
+		addTLC(rep, res2)
+		if res2.Violated != "" {
+			rep.Infraf("spec TempVM (include / eval): %s violated", res2.Violated)
+		}
+		if g2, err := graph.Build(res2.Tagged["INIT"], res2.Tagged["EDGE"]); err == nil {
+			viaPaths := 0
+			g2.AllPaths(4, func(_ string, path []graph.Edge) bool {
+				sts := make([]step, len(path))
+				for i, e := range path {
+					must(json.Unmarshal(e.Act, &sts[i].act))
+					var st c12State
+					must(json.Unmarshal(e.ToState, &st))
+					sts[i].table = st.table()
+				}
+				if len(sts) > 0 {
+					viaPaths++
+					replay(sts, true, []string{"A"}, false)
+				}
+				return len(rep.Mismatches) < 200
+			})
+			rep.Coverage["include_eval_paths"] = viaPaths
+		} else {
+			rep.Infraf("graph (include / eval): %v", err)
+		}
+	}
 	exhaustive := paths
 	// seeded long walks from TLC -simulate with a history variable
 	walkLen := 40
 	sim := runTLC(rep, tlc.Run{SpecDir: c.SpecDir(), Module: "TempVM", Cfg: "TempVM.cfg", Workers: 1,
-		Consts:   map[string]string{"NAMES": `{"A","B","C","D","E","F","G","H"}`, "TEMPS": `{"t1","t2","t3","t4"}`, "MAXDEFS": "1000", "HIST": "TRUE", "WALKLEN": fmt.Sprint(walkLen), "PROBES": `{"class", "iface", "func"}`},
+		Consts:   map[string]string{"NAMES": `{"A","B","C","D","E","F","G","H"}`, "TEMPS": `{"t1","t2","t3","t4"}`, "MAXDEFS": "1000", "HIST": "TRUE", "WALKLEN": fmt.Sprint(walkLen), "PROBES": `{"class", "iface", "func"}`, "VIAS": `{"inline", "include", "eval"}`, "EVALTEMP": evalTemp},
 		Simulate: fmt.Sprintf("num=%d", c.Pick(12, 150)), Depth: walkLen + 3, Seed: c.Seed, Timeout: 0})
 	if sim != nil {
 		if sim.Violated != "" {
@@ -491,7 +565,7 @@ func C12(c *Ctx) *kf.Report {
 	rep.Coverage["exhaustive"] = true
 	rep.Coverage["exhaustive_paths"] = exhaustive
 	rep.Coverage["paths_via_HotHandler"] = hotPaths
-	rep.Coverage["rule"] = fmt.Sprintf("all paths of length <= %d of the TempVM state graph (1 base + 2 temps, names {A,B}, <= %d definitions) replayed on real VMs -- steps are define / new / discard / probe (use of a class name on a VM, found or not; in the walks also interface and function names) -- with the resolve table of every live VM compared after every step (Go API) and at the end of each path (scripts); plus TLC -simulate walks of length %d over 4 temps / 8 names compared after every step at both levels; non-trivial = a temp definition made while another temp VM is alive", depth, maxDefs, walkLen)
+	rep.Coverage["rule"] = fmt.Sprintf("all paths of length <= %d of the TempVM state graph (1 base + 2 temps, names {A,B}, <= %d definitions) replayed on real VMs -- steps are define (inline; and, in a second graph over one name, through an included file or eval()) / new / discard / probe (use of a class name on a VM, found or not; in the walks also interface and function names) -- with the resolve table of every live VM compared after every step (Go API) and at the end of each path (scripts); plus TLC -simulate walks of length %d over 4 temps / 8 names compared after every step at both levels; non-trivial = a temp definition made while another temp VM is alive", depth, maxDefs, walkLen)
 	if len(samples) == 0 {
 		samples = append(samples, "none")
 	}
